@@ -433,6 +433,13 @@ def bl5(ctx, R):
         if s_[0] == "sum" and not s_[4]:
             elt, bv, ENC = s_[1], s_[2], s_[3]
             ok_s = elt[0] == "binop" and elt[1] == "+" and len(elt[2]) == 2 and set(elt[2]) == {("const", 4), ("len", bv)}
+        elif s_[0] == "binop" and s_[1] == "+" and len(s_[2]) == 2:
+            # the same total with the offsets counted at once:  4 * len(ENC) + sum(len(v) for v in ENC)
+            sums_ = [t for t in s_[2] if t[0] == "sum" and not t[4] and t[1] == ("len", t[2])]
+            prods_ = [t for t in s_[2] if t[0] == "binop" and t[1] == "*" and len(t[2]) == 2 and ("const", 4) in t[2]]
+            if len(sums_) == 1 and len(prods_) == 1:
+                ENC = sums_[0][3]
+                ok_s = set(prods_[0][2]) == {("const", 4), ("len", ENC)}
     R.check(ok_s, "writer.object_data_size::string size", ods.where(), "sum over the encoded strings of 4 (offset) + len(encoded)",
             "the declared size of string data is `%s`, not the sum over the encoded byte strings of a 4-byte offset plus the encoded length, which is what "
             "write_string_values writes" % (show(alpha(S))[:160] if S else None))
@@ -476,6 +483,16 @@ def bl5(ctx, R):
         # accumulate(len(s) for s in ENC)
         inner = collect(it, lambda x: is_enc(x, sparam))
         return bool(inner) and it[0] == "call" and it[1] in ("accumulate", "itertools.accumulate")
+    if "offset" not in [k for k, _ in kinds]:
+        # all offsets packed and written at once, outside any loop:  file.write(struct.pack(fmt, *accumulate(len(s) for s in ENC)))
+        pre2 = []
+        for st in wsv.node.body:
+            if isinstance(st, ast.Expr) and isinstance(st.value, ast.Call) and call_name(st.value) == "%s.write" % fparam and st.value.args:
+                v_ = sw.expr(st.value.args[0], sw.env_at_end(pre2))
+                inner_ = collect(v_, lambda x: is_enc(x, sparam))
+                if inner_ and collect(v_, lambda x: isinstance(x, tuple) and len(x) >= 2 and x[0] == "call" and x[1] in ("accumulate", "itertools.accumulate")):
+                    kinds.insert(0, ("offset", ("call", "accumulate", (inner_[0],), ())))
+            pre2.append(st)
     from .sem import module_region
     wregion = module_region(prog, wsv)
     if not kinds and len(wregion) > 1:
@@ -949,13 +966,15 @@ def wt1(ctx, R):
 def uc1(ctx, R):
     prog = ctx.prog
     codecs = []
-    for mname in ("types", "writer"):
-        mod = prog.module(mname)
+    # types.py, writer.py and every module that did not exist on the baseline tree (code moved out of them)
+    BASELINE_MODULES = {"__init__", "base_segment", "channel_data", "common", "daqmx", "log", "reader", "scaling", "tdms", "tdms_segment", "tdmsinfo",
+                        "thermocouples", "timestamp", "types", "utils", "version", "writer", "export", "export.hdf_export", "export.pandas_export", "export.__init__"}
+    for mod in [prog.module("types"), prog.module("writer")] + [m_ for nm_, m_ in sorted(prog.modules.items()) if nm_ not in BASELINE_MODULES]:
         for n in ast.walk(mod.tree):
             if isinstance(n, ast.Call) and isinstance(n.func, ast.Attribute) and n.func.attr in ("encode", "decode"):
                 c = prog.try_fold(n.args[0], mod) if n.args else "<default utf-8>"
                 codecs.append((mod, n, c))
-    if len(codecs) < 4:
+    if len(codecs) < 3:
         raise AnchorMissing("encode/decode sites in types.py and writer.py (found %d)" % len(codecs))
     for mod, n, c in codecs:
         cn = (c or "").lower().replace("_", "-") if isinstance(c, str) else c
